@@ -31,6 +31,10 @@ CLAIMED = {
    technique="MIR symbolic execution/z3 of one step of module::load's work-list, import and compile loops; recording in-memory Loader around the real function as replay",
    text="Partial: step lemmas over the generic oal_compiler::module::load, not all import graphs. The main module is loaded first; one import step loads/parses a module only on the path where the dependency map has no entry for its locator, and then registers it, adds its node, adds the edge import->importer, records it in the map and enqueues it, each once; a known module only gets the edge from its recorded node; an import that is not valid fails load() before anything is loaded; the compile loop walks the unmodified result of toposort(graph), compiles the module of each node and stops at the first error; load() returns Ok only after toposort returned Ok and every Loader call on the path returned Ok; a failed topological sort fails load() with Kind::CycleDetected and compiles nothing.",
    note="Trusted: MIR text, mirsym, z3; library contracts of HashMap::get/insert and petgraph::toposort (stated). Outside: composition of the steps over a whole run (the deps-map invariant), Locator::join normalisation, termination. A failing lemma is reported only if a recording in-memory Loader driven through the real load() shows a wrong call sequence on one of 9 import graphs (chain, diamond, reordered uses, relative spellings, cycles incl. self-import and through main, missing import)."),
+ "C12": dict(engine="M", category="model_checking", design="DESIGN.md 3/C12",
+   technique="MIR symbolic execution/z3 of the memo protocol (memoize, Context::lookup/cache/without_cache); real parser with vs. without memo as replay",
+   text="Partial: the memo protocol, not the whole parser. memoize(tag, ctx, cursor, production): the production runs only on the path where lookup(tag, cursor) is None, at the same cursor; its result is stored under (tag, cursor) after it ran and is what memoize returns; on a hit the stored result is returned, nothing is stored and the production does not run. lookup consults the table only when caching is on and answers from its own table; cache stores only when caching is on; lookup and cache build the same key (cursor, tag); without_cache only flips the switch; Context::new starts with caching on; the two memoised productions use distinct tags. Values unbounded; all paths.",
+   note="Trusted: MIR text, mirsym, z3. Outside: purity of the production functions up to the arena (reuse of node indices of discarded attempts), which productions are memoised, the linear-work clause (only sampled). A failing lemma is reported only if the real parser, driven with and without its memo table, builds different trees/errors on a 10-text corpus, or token reads stop growing linearly with nesting depth 8..64."),
  "C13": dict(engine="M", category="model_checking", design="DESIGN.md 3/C13",
    technique="symbolic execution of MIR (uninterpreted calls) + z3 over all paths; real-CLI replay",
    text="All non-cleanup paths of run/main (oal-cli), Processor::{load,eval}, ProcLoader/WebLoader::{parse,compile}, wasm process/compile are executed symbolically with every callee an uninterpreted function with symbolic Ok/Err outcome; z3 decides per path: SUCCESS <=> run Ok; Ok => exactly one write_file, it returned Ok, its buffer is to_string(into_openapi(..)) of this run and goes to the configured target, every inspected fallible step returned Ok; Err after write_file => write_file failed; loaders: Ok => oal_syntax::parse reported no error; compile/eval wrappers agree with the compiler's verdict; relational CLI-vs-playground query (same module set => both fail or same YAML term). Partial: diagnostics' text/location and the LSP clause are outside.",
@@ -55,7 +59,6 @@ NA = {
  "C08": "resolver/evaluator scoping over arena trees and HashMap scope stacks; no encoding within reach",
  "C09": "petgraph SCC iteration and SHA-256 naming over arena indices; outside Kani and loop/graph-shaped so outside the MIR engine",
  "C11": "token tiling is a property of the logos DFA (4 symbolic bytes > 20 min) and of the parser+arena (5 concrete tokens > 3 min); the reachable fragments are by-construction identities",
- "C12": "needs the parser with and without its HashMap memo on symbolic token lists; linearity is a complexity claim, not a bounded assertion",
  "C17": "handlers traverse the arena and compare Definitions across a HashMap module set; needs whole trees under a solver",
  "C18": "alpha-equivalence of two whole compilations plus handler traversal; same obstacle",
 }
